@@ -542,33 +542,30 @@ func (m *Mast) SeekIter(ctx context.Context, k interface{}, f func(interface{}, 
 	if err != nil {
 		return err
 	}
-	keyLayer, err := m.keyLayer(k, m.branchFactor)
-	if err != nil {
-		return fmt.Errorf("layer: %w", err)
-	}
-	options := findOptions{
-		targetLayer:   uint8min(keyLayer, m.height),
-		currentHeight: m.height,
-	}
-	node, i, err := node.findNode(ctx, m, k, &options)
+	// Position on the least key >= k (whether or not k itself is present,
+	// whatever its layer), then walk forward.
+	c := &Cursor{m: m, path: []pathEntry{{node, 0}}}
+	err = c.Ceil(ctx, k)
 	if err != nil {
 		return err
 	}
-	if i >= len(node.Key) ||
-		options.targetLayer != options.currentHeight {
-		return nil
-	}
-	for i := len(options.path) - 1; i >= 0; i-- {
-		entry := options.path[i]
-		err = entry.node.seekIter(ctx, entry.linkIndex, f, m)
+	for {
+		key, value, ok := c.Get()
+		if !ok {
+			return nil
+		}
+		err = f(key, value)
 		if err == ErrIterDone {
 			return nil
 		}
 		if err != nil {
 			return err
 		}
+		err = c.Forward(ctx)
+		if err != nil {
+			return err
+		}
 	}
-	return nil
 }
 
 // LoadMast loads a tree from a remote store. The root is loaded
